@@ -21,8 +21,23 @@ Router side:
   * `invalidate` — `Invalidate`: the proxy drops one route after NOT_LEADER / NOT_COORDINATOR
   * `put`/`del`  — lease changes committed in etcd by anybody, at any point of the above
 
-etcd watch contract (assumption): a watch created with start revision `w` delivers every event
-with revision ≥ `w`, in order.
+Revisions: `log` has ONE ENTRY PER etcd REVISION, holding all events committed in that revision
+(a lease revoke / session close deletes every attached key in one revision; a txn may write
+several keys).  etcd never splits one revision over two watch responses, and the watch loop applies
+a whole response under its lock, so `deliver` processes one revision's events atomically — event by
+event, with the code's per-event revision bookkeeping (`procEv`).
+
+Variants (`Variant`):
+  * `fixed`       — the code with the fix: `WithRev(rev+1)`; `if ev.ModRevision > rev { rev = ... }`
+  * `noRev`       — the code as found: revision-less watch
+  * `skipSameRev` — a "de-duplicating" variant that skips events with `ModRevision <= rev`: wrong,
+                    because the 2nd, 3rd … event of one revision carry the same ModRevision
+
+Compaction: `compact` compacts etcd at the current revision; a watch whose start revision lies
+before the compaction point fails (ErrCompacted), the loop sleeps and reloads.
+
+etcd watch contract (assumption): a watch created with start revision `w` (not compacted)
+delivers every event with revision ≥ `w`, in order, one or more whole revisions per response.
 -/
 namespace KafVerif.Router
 
@@ -35,10 +50,6 @@ def applyEv (acc : Nat → Bool) (t : Nat → Option Nat) : Ev → Nat → Optio
   | .put k v => if acc k then (fun x => if x = k then some v else t x) else t
   | .del k => if acc k then (fun x => if x = k then none else t x) else t
 
-/-- accepted-key view of the etcd state at revision `n` -/
-def stateAt (acc : Nat → Bool) (log : List Ev) (n : Nat) : Nat → Option Nat :=
-  (log.take n).foldl (applyEv acc) (fun _ => none)
-
 structure Router where
   table : Nat → Option Nat
   rev : Nat
@@ -47,15 +58,23 @@ structure Router where
   inval : Nat → Bool      -- ghost: routes dropped by `Invalidate` and not yet re-learnt
 
 structure World where
-  log : List Ev
+  log : List (List Ev)    -- entry i = the events of revision i+1
+  compacted : Nat         -- revisions ≤ this one can no longer be watched from
   r : Router
 
 def init : World :=
-  { log := [], r := { table := fun _ => none, rev := 0, watching := false, cursor := 0, inval := fun _ => false } }
+  { log := [], compacted := 0,
+    r := { table := fun _ => none, rev := 0, watching := false, cursor := 0, inval := fun _ => false } }
+
+inductive Variant where
+  | fixed | noRev | skipSameRev
+deriving DecidableEq, Repr
 
 inductive Op where
   | put (k v : Nat)
   | del (k : Nat)
+  | batch (evs : List Ev)
+  | compact
   | load
   | loadFail
   | watch
@@ -68,44 +87,77 @@ def evKey : Ev → Nat
   | .put k _ => k
   | .del k => k
 
-/-- `fixed = true`: the code with the proposed fix; `false`: the code as found. -/
-def step (acc : Nat → Bool) (fixed : Bool) (w : World) : Op → World
-  | .put k v => { w with log := w.log ++ [.put k v] }
-  | .del k => { w with log := w.log ++ [.del k] }
+def applyEvs (acc : Nat → Bool) (t : Nat → Option Nat) (evs : List Ev) : Nat → Option Nat :=
+  evs.foldl (applyEv acc) t
+
+/-- accepted-key view of the etcd state at revision `n` -/
+def stateAt (acc : Nat → Bool) (log : List (List Ev)) (n : Nat) : Nat → Option Nat :=
+  (log.take n).foldl (applyEvs acc) (fun _ => none)
+
+/-- the part of the router the watch loop's inner `for _, ev := range resp.Events` touches -/
+structure Loop where
+  table : Nat → Option Nat
+  rev : Nat
+  inval : Nat → Bool
+
+/-- one iteration of the event loop for an event of revision `R` -/
+def procEv (acc : Nat → Bool) (var : Variant) (R : Nat) (st : Loop) (e : Ev) : Loop :=
+  let applied : Loop :=
+    { table := applyEv acc st.table e,
+      rev := if R > st.rev then R else st.rev,
+      inval := fun x => if x = evKey e ∧ acc x then false else st.inval x }
+  match var with
+  | .skipSameRev => if R ≤ st.rev then st else applied
+  | _ => applied
+
+def startOk (var : Variant) (w : World) : Bool :=
+  match var with
+  | .noRev => true
+  | _ => !(w.r.rev + 1 < w.compacted)
+
+/-- does the write change etcd (and so create a revision)?  Deleting an absent key does not. -/
+def effective (w : World) : Ev → Bool
+  | .put _ _ => true
+  | .del k => (stateAt (fun _ => true) w.log w.log.length k).isSome
+
+def step (acc : Nat → Bool) (var : Variant) (w : World) : Op → World
+  | .put k v => { w with log := w.log ++ [[.put k v]] }
+  | .del k => if effective w (.del k) then { w with log := w.log ++ [[.del k]] } else w
+  | .batch evs => if evs.any (effective w) then { w with log := w.log ++ [evs] } else w
+  | .compact => { w with compacted := w.log.length }
   | .load =>
     if w.r.watching then w else
     { w with r := { w.r with table := stateAt acc w.log w.log.length, rev := w.log.length, inval := fun _ => false } }
   | .loadFail => w
   | .watch =>
-    if w.r.watching then w else
-    { w with r := { w.r with watching := true, cursor := if fixed then w.r.rev else w.log.length } }
+    if w.r.watching then w
+    else if startOk var w then
+      { w with r := { w.r with watching := true, cursor := if var = .noRev then w.log.length else w.r.rev } }
+    else w            -- ErrCompacted: the channel closes at once, the loop sleeps and reloads
   | .deliver =>
     if w.r.watching then
       match w.log[w.r.cursor]? with
-      | some e =>
-        { w with r := { w.r with
-            table := applyEv acc w.r.table e,
-            cursor := w.r.cursor + 1,
-            rev := w.r.cursor + 1,
-            inval := fun x => if x = evKey e ∧ acc x then false else w.r.inval x } }
+      | some evs =>
+        let st := evs.foldl (procEv acc var (w.r.cursor + 1)) ⟨w.r.table, w.r.rev, w.r.inval⟩
+        { w with r := { w.r with table := st.table, rev := st.rev, inval := st.inval, cursor := w.r.cursor + 1 } }
       | none => w
     else w
   | .close => { w with r := { w.r with watching := false } }
   | .invalidate k => { w with r := { w.r with table := fun x => if x = k then none else w.r.table x,
                                               inval := fun x => if x = k then true else w.r.inval x } }
 
-def run (acc : Nat → Bool) (fixed : Bool) (w : World) (ops : List Op) : World :=
-  ops.foldl (step acc fixed) w
+def run (acc : Nat → Bool) (var : Variant) (w : World) (ops : List Op) : World :=
+  ops.foldl (step acc var) w
 
-def deliverN (acc : Nat → Bool) (fixed : Bool) : Nat → World → World
+def deliverN (acc : Nat → Bool) (var : Variant) : Nat → World → World
   | 0, w => w
-  | n + 1, w => deliverN acc fixed n (step acc fixed w .deliver)
+  | n + 1, w => deliverN acc var n (step acc var w .deliver)
 
 /-- "once changes stop": the router (re)establishes its watch if it has none — the reconnect
 `loadAll` may succeed or fail — and every event the watch owes is delivered. -/
-def quiesce (acc : Nat → Bool) (fixed : Bool) (reloadOk : Bool) (w : World) : World :=
+def quiesce (acc : Nat → Bool) (var : Variant) (reloadOk : Bool) (w : World) : World :=
   let w1 := if w.r.watching then w
-            else step acc fixed (step acc fixed w (if reloadOk then .load else .loadFail)) .watch
-  deliverN acc fixed (w1.log.length - w1.r.cursor) w1
+            else step acc var (step acc var w (if reloadOk then .load else .loadFail)) .watch
+  deliverN acc var (w1.log.length - w1.r.cursor) w1
 
 end KafVerif.Router
